@@ -52,4 +52,45 @@ def bracketedAux : List Tok → Held → List Held → Bool
 
 def bracketed (l : List Tok) : Bool := bracketedAux l .none []
 
+/-! ### The get-or-create idiom in the services that use `LockData()`
+
+`datascope facts` also looks at every function of the repository (outside package `datascope`, outside
+`_test.go`) that mentions `LockData`, and flattens its body, in source order, to the events below.
+`X` is the scope the function locks (`l := X.LockData()`), `l` the locker it got.  Keys and local
+variables are numbered by first appearance in the emitted list (key `0` = the first key expression
+seen, variable `0` = the first variable seen), so renaming a local or a key constant, reordering
+statements that touch neither `X` nor `l` nor one of these variables, and comments do not change the
+list.  Only variables that take part in the flow read → test → create → store → return are numbered. -/
+
+/-- one operand of a `return` -/
+inductive RetOp where
+  | var (x : Nat)        -- a numbered variable
+  | assertOf (x : Nat)   -- `x.(T)`
+  | nil
+  | commit               -- `l.Commit()` evaluated as an operand: the lock is released, then the function returns
+  | other
+deriving DecidableEq, Repr
+
+inductive ITok where
+  | lock                           -- l := X.LockData()
+  | deferCommit                    -- defer l.Commit()        (runs at every return below it)
+  | commit                         -- l.Commit()
+  | value (k x : Nat)              -- x = l.Value(key k)
+  | setValue (k y : Nat)           -- l.SetValue(key k, y)
+  | keys                           -- l.Keys()
+  | ifNil (x : Nat)                -- if x == nil {
+  | ifNotNil (x : Nat)             -- if x != nil {
+  | ifOther                        -- if <any other condition> {
+  | else_ | fi                     -- } else {   /   }
+  | create (y : Nat)               -- y = <a call that involves neither X nor l>   (the new instance)
+  | assert (y x : Nat)             -- y = x.(T)
+  | ret (ops : List RetOp)         -- return …
+  | unlockedValue (k x : Nat)      -- x = X.Value(key k): the scope itself, not the locker — before `lock` or
+  | unlockedSetValue (k : Nat)     -- X.SetValue(key k, …)  after `commit` it is an access outside the locked
+  | unlockedKeys                   -- X.Keys()              section, between them it waits for the own lock for ever
+  | lockerEscapes                  -- l or X.LockData used in any other way (passed on, stored, captured by a closure)
+  | other                          -- loop, switch, select, go, closure, a second LockData, an untracked store
+  | missing                        -- the function was not found
+deriving DecidableEq, Repr
+
 end Goat.Tie.C13
